@@ -55,6 +55,8 @@ def ref_run(ops):
             v = ref_subst(defs, op[2].strip())
             if v is None:
                 return ("reject",)
+            if not (n[:1].isalpha() and n[:1].isascii() or n[:1] == "_") or not all((c.isalnum() and c.isascii()) or c == "_" for c in n):
+                return ("reject",)          # not a legal substitution name (the name itself is never $-expanded)
             if n in defs:
                 if defs[n] != v:
                     return ("reject",)
@@ -94,7 +96,8 @@ def render(ops, files, prefix="f"):
 
 
 def sequences(maxlen, rng, budget):
-    atoms = [("define", n, v) for n in NAMES for v in VALUES] + [("use", n) for n in NAMES] + [("useb", n) for n in NAMES]
+    atoms = [("define", n, v) for n in NAMES for v in VALUES] + [("use", n) for n in NAMES] + [("useb", n) for n in NAMES] + \
+            [("define", "$a", "lit"), ("define", "${B}_z", "lit"), ("define", "a$$", "x"), ("define", "a-b", "x")]
     # exhaustive up to length 2, then all sequences of the given length over a reduced atom set, then sampled
     for n in range(1, 3):
         yield from itertools.product(atoms, repeat=n)
